@@ -37,6 +37,7 @@ def replayLease (sc : LScn) (entries : List String) : RRes := Id.run do
   let mut s : LSt := { now := 0, lease := sc.lease, store := fun _ => none, inst := instCfg sc }
   let mut aux : Array RAux := sc.insts.map fun _ => {}
   let mut idx := 0
+  let mut preExpired : List (Nat × Nat × Nat) := []
   for e in entries do
     idx := idx + 1
     let f := e.splitOn ":"
@@ -136,6 +137,14 @@ def replayLease (sc : LScn) (entries : List String) : RRes := Id.run do
       aux := aux.modify n2 fun u => { u with provisioning := false, lastTouch := t }
     else if kind == "issue" then
       let i := n2
+      -- the expiry goroutine clears a partition before it reports the release: a request the loop issues in
+      -- between sees the smaller count; the model takes the due expiries of this instance first
+      if (lstep n s (.issue i n3)).isNone then
+        for tm in (s.inst i).timers do
+          if tm.2 ≤ s.now then
+            match lstep n s (.expire i tm.1 tm.2) with
+            | some s' => s := s'; preExpired := (i, tm.1, tm.2) :: preExpired
+            | none => pure ()
       match lstep n s (.issue i n3) with
       | some s' => s := s'
       | none =>
@@ -165,6 +174,10 @@ def replayLease (sc : LScn) (entries : List String) : RRes := Id.run do
       if name == "allocated" then
         if !(s.inst i).held.contains v then return bad "partition reported allocated, the model does not count it (late grant?)"
       else if name == "released" then
+        if preExpired.contains (i, v, t) then
+          preExpired := preExpired.erase (i, v, t)
+          aux := aux.modify i fun u => { u with lastTouch := t }
+        else
         match lstep n s (.expire i v t) with
         | some s' => s := s'; aux := aux.modify i fun u => { u with lastTouch := t }
         | none => return bad s!"release at an instant the model has no expiry for (timers={(s.inst i).timers})"
